@@ -29,6 +29,10 @@ type Chan struct {
 	// System A: local writes (total bytes per stream, split into writes)
 	Data   []int `json:"data,omitempty"`
 	Stderr []int `json:"stderr,omitempty"`
+	// Ext: writes on a further extended stream with code ExtCode (> 1), through
+	// the channel's Extended(code) writer
+	Ext     []int  `json:"ext,omitempty"`
+	ExtCode uint32 `json:"ext_code,omitempty"`
 	Grants []int `json:"grants,omitempty"` // window increments the peer hands out, cycled
 	// System B: what the peer sends: a list of (stream, size); stream 0 data, 1 stderr, >1 other extended code
 	Send     []Send `json:"send,omitempty"`
@@ -80,6 +84,9 @@ func gen(r *rand.Rand, prop, tier string, index int) any {
 				c.MaxPacket = []uint32{9, 10, 16, 64, 100, 1000, 32768, 1 << 20}[r.IntN(8)]
 			}
 			c.Data, c.Stderr = genWrites(r), genWrites(r)
+			if r.IntN(3) == 0 {
+				c.Ext, c.ExtCode = genWrites(r), []uint32{2, 7, 0x10000}[r.IntN(3)]
+			}
 			for k, n := 0, 1+r.IntN(4); k < n; k++ {
 				g := 1 + r.IntN(300)
 				if r.IntN(4) == 0 {
@@ -160,8 +167,9 @@ type pchan struct {
 	// system A accounting
 	granted   uint64 // window handed to the local sender (initial + adjusts sent)
 	sent      uint64 // data bytes received from the local sender
-	recv      [2]int // bytes received per stream (0 data, 1 stderr)
+	recv      [3]int // bytes received per stream (0 data, 1 stderr, 2 further extended code)
 	grantIdx  int
+	empty     int // zero-length data packets received
 	// system B accounting
 	localWin  uint64 // window the local side advertised plus adjusts received
 	localMax  uint32
@@ -283,7 +291,7 @@ func runHarness(c *core.Ctx, scn any) {
 	for i := range s.Chans {
 		i := i
 		if s.System == "A" {
-			for st, writes := range [][]int{s.Chans[i].Data, s.Chans[i].Stderr} {
+			for st, writes := range [][]int{s.Chans[i].Data, s.Chans[i].Stderr, s.Chans[i].Ext} {
 				if len(writes) == 0 {
 					continue
 				}
@@ -323,14 +331,23 @@ func (r *run) writer(i, stream int, writes []int) {
 		return
 	}
 	var w io.Writer = ch
+	code := uint32(stream)
 	if stream == 1 {
 		w = ch.Stderr()
+	}
+	if stream == 2 {
+		x, ok := ch.(interface{ Extended(uint32) io.ReadWriter })
+		if !ok {
+			return // this channel type offers no further extended streams
+		}
+		code = r.s.Chans[i].ExtCode
+		w = x.Extended(code)
 	}
 	off := 0
 	for k, n := range writes {
 		p := make([]byte, n)
 		for j := range p {
-			p[j] = content(i, uint32(stream), off+j)
+			p[j] = content(i, code, off+j)
 		}
 		m, err := w.Write(p)
 		if err != nil || m != n {
@@ -460,22 +477,44 @@ func (r *run) peerLoop() {
 				r.c.Violate(Prop, "max-packet-exceeded", "channel %d: the local side sent a data packet of %d bytes, the peer's maximum packet size is %d", pc.idx, n, cs.MaxPacket)
 				return
 			}
+			if n == 0 {
+				pc.empty++
+				zeroWrites := 0
+				for _, z := range cs.Data {
+					if z == 0 {
+						zeroWrites++
+					}
+				}
+				for _, z := range append(append([]int(nil), cs.Stderr...), cs.Ext...) {
+					if z == 0 {
+						zeroWrites++
+					}
+				}
+				if pc.empty > 1000+zeroWrites {
+					r.c.Violate(Prop, "writer-livelock", "channel %d: the local side has sent %d empty data packets (only %d writes are empty): a writer is spinning without making progress (peer window %d left, max packet %d)", pc.idx, pc.empty, zeroWrites, pc.granted-pc.sent, cs.MaxPacket)
+					return
+				}
+			}
 			pc.sent += uint64(n)
 			if pc.sent > pc.granted {
 				r.c.Violate(Prop, "window-exceeded", "channel %d: the local side has sent %d bytes of data but the peer has granted only %d (initial window %d plus adjustments)", pc.idx, pc.sent, pc.granted, cs.Window)
 				return
 			}
+			si := int(stream)
 			if stream > 1 {
-				r.c.Violate(Prop, "stream-corrupted", "channel %d: data arrived with extended code %d that nobody wrote", pc.idx, stream)
-				return
+				if stream != cs.ExtCode || len(cs.Ext) == 0 {
+					r.c.Violate(Prop, "stream-corrupted", "channel %d: data arrived with extended code %d that nobody wrote", pc.idx, stream)
+					return
+				}
+				si = 2
 			}
 			for j := 0; j < n; j++ {
-				if p[hdr+j] != content(pc.idx, stream, pc.recv[stream]+j) {
-					r.c.Violate(Prop, "stream-corrupted", "channel %d stream %d: byte at offset %d differs from what the local side wrote (lost, duplicated or reordered data)", pc.idx, stream, pc.recv[stream]+j)
+				if p[hdr+j] != content(pc.idx, stream, pc.recv[si]+j) {
+					r.c.Violate(Prop, "stream-corrupted", "channel %d extended code %d: byte at offset %d differs from what the local side wrote on that stream (lost, duplicated, reordered or mixed-up data)", pc.idx, stream, pc.recv[si]+j)
 					return
 				}
 			}
-			pc.recv[stream] += n
+			pc.recv[si] += n
 			// grant window at generated moments: here with a choice, otherwise at idle
 			if len(cs.Grants) > 0 && r.c.Sim.ChooseP(1, 3) {
 				r.grant(pc)
@@ -607,7 +646,7 @@ func (r *run) onIdle() bool {
 			}
 			// all writers returned: everything written must have arrived
 			for i, cs := range s.Chans {
-				for st, writes := range [][]int{cs.Data, cs.Stderr} {
+				for st, writes := range [][]int{cs.Data, cs.Stderr, cs.Ext} {
 					t := 0
 					for _, n := range writes {
 						t += n
@@ -680,6 +719,7 @@ func shrink(scn any) []any {
 		for _, f := range []func(*Chan) bool{
 			func(c *Chan) bool { if len(c.Data) > 0 { c.Data = c.Data[:len(c.Data)-1]; return true }; return false },
 			func(c *Chan) bool { if len(c.Stderr) > 0 { c.Stderr = c.Stderr[:len(c.Stderr)-1]; return true }; return false },
+			func(c *Chan) bool { if len(c.Ext) > 0 { c.Ext = c.Ext[:len(c.Ext)-1]; return true }; return false },
 			func(c *Chan) bool { if len(c.Send) > 1 { c.Send = c.Send[:len(c.Send)/2]; return true }; return false },
 			func(c *Chan) bool { if len(c.Send) > 1 { c.Send = c.Send[1:]; return true }; return false },
 			func(c *Chan) bool { if c.CloseMid { c.CloseMid = false; return true }; return false },
@@ -688,6 +728,7 @@ func shrink(scn any) []any {
 			cc := c
 			cc.Data = append([]int(nil), c.Data...)
 			cc.Stderr = append([]int(nil), c.Stderr...)
+			cc.Ext = append([]int(nil), c.Ext...)
 			cc.Send = append([]Send(nil), c.Send...)
 			if f(&cc) {
 				n := cp()
